@@ -113,6 +113,9 @@ def imod (a b : Int) : Option Int := if b = 0 then none else some (Int.tmod a b)
 def udiv (a b : Nat) : Option Nat := if b = 0 then none else some (a / b)
 def umod (a b : Nat) : Option Nat := if b = 0 then none else some (a % b)
 
+/-- `for k := range m { delete(m, k) }`: every key is deleted; the nil map stays nil -/
+def Map.clear {κ ν : Type} (m : Map κ ν) : Map κ ν := m.map fun _ => []
+
 /-! ### facts about `loop` for the equivalence proofs (no definitions below this line are used by generated text) -/
 
 /-- a body that never returns nor breaks: the loop is the fold of its state function -/
